@@ -1994,7 +1994,7 @@ send_cd(int whither, struct cd_s cd)
 }
 
 static void
-send_rrul(int whither, rrulsp_t rr, size_t ccnt)
+send_rrul(int whither, rrulsp_t rr, size_t ccnt, bool exc)
 {
 	static const char *const f[] = {
 		[FREQ_NONE] = "FREQ=NONE",
@@ -2010,7 +2010,7 @@ send_rrul(int whither, rrulsp_t rr, size_t ccnt)
 	/* tell the bufferer we want to write to WHITHER */
 	fdbang(whither);
 
-	fdprintf("RRULE:%s", f[rr->freq]);
+	fdprintf("%s:%s", exc ? "EXRULE" : "RRULE", f[rr->freq]);
 
 	if (rr->inter > 1U) {
 		fdprintf(";INTERVAL=%u", rr->inter);
@@ -2189,6 +2189,8 @@ struct evical_s {
 
 	/* our iterator state */
 	size_t i;
+	/* whether these are dates of exceptions, EXDATEs */
+	bool exc;
 	/* array size and data */
 	size_t nev;
 	echs_event_t ev[];
@@ -2219,6 +2221,7 @@ make_evical_vevent(const struct echs_event_s *ev, size_t nev)
 	}
 	res->class = &evical_cls;
 	res->i = 0U;
+	res->exc = false;
 	res->nev = nev;
 	memcpy(res->ev, ev, zev);
 	return (echs_evstrm_t)res;
@@ -2241,6 +2244,9 @@ clone_evical_vevent(echs_const_evstrm_t s)
 
 	res = (struct evical_s*)make_evical_vevent(
 		this->ev + this->i, this->nev - this->i);
+	if (LIKELY(res != NULL)) {
+		res->exc = this->exc;
+	}
 	return (echs_evstrm_t)res;
 }
 
@@ -2268,11 +2274,16 @@ send_evical_vevent(int whither, echs_const_evstrm_t s)
 	if (UNLIKELY(this->i >= this->nev)) {
 		return;
 	}
-	send_ev(whither, this->ev[this->i], 0U);
+	if (!this->exc) {
+		send_ev(whither, this->ev[this->i], 0U);
+	} else {
+		fdbang(whither);
+	}
 	/* the dates to come go as RDATEs, the one above included as DTSTART
 	 * isn't an occurrence in the presence of RDATEs, mind the parser's
 	 * line limit */
-	for (size_t j = this->i; this->nev > 1U && j < this->nev; j++) {
+	for (size_t j = this->i;
+	     (this->exc || this->nev > 1U) && j < this->nev; j++) {
 		char stmp[32U];
 		size_t ztmp;
 
@@ -2280,7 +2291,11 @@ send_evical_vevent(int whither, echs_const_evstrm_t s)
 			if (j > this->i) {
 				fdputc('\n');
 			}
-			fdwrite("RDATE:", strlenof("RDATE:"));
+			if (!this->exc) {
+				fdwrite("RDATE:", strlenof("RDATE:"));
+			} else {
+				fdwrite("EXDATE:", strlenof("EXDATE:"));
+			}
 		} else {
 			fdputc(',');
 		}
@@ -2321,7 +2336,7 @@ instant_soup(echs_instant_t broth, echs_instant_t water, echs_tzob_t z, int eof)
 }
 
 static echs_evstrm_t
-__make_evrdat(echs_event_t e, const echs_instant_t *d, size_t nd)
+__make_evrdat(echs_event_t e, const echs_instant_t *d, size_t nd, bool exc)
 {
 /* this will degrade into an evical_vevent stream */
 	struct evical_s *res;
@@ -2375,6 +2390,7 @@ __make_evrdat(echs_event_t e, const echs_instant_t *d, size_t nd)
 	/* just the rest of the book-keeping */
 	res->class = &evical_cls;
 	res->i = 0U;
+	res->exc = exc;
 	res->nev = nd;
 	return (echs_evstrm_t)res;
 }
@@ -2403,6 +2419,8 @@ struct evrrul_s {
 	int pof;
 	/* seed of the next refill, in the rule's terms, i.e. local time */
 	echs_instant_t seed;
+	/* whether this is a rule of exceptions, an EXRULE */
+	bool exc;
 
 	/* sequence counter */
 	size_t seq;
@@ -2432,15 +2450,60 @@ static const struct echs_evstrm_class_s evrrul_cls = {
 };
 
 static struct rrulsp_s
-fix_rrul_dflts(struct rrulsp_s rr, echs_instant_t from)
+fix_rrul_dflts(struct rrulsp_s rr, echs_instant_t from, bool multi)
 {
 /* Refills are seeded with the last occurrence handed out, which under
- * a SHIFT is a shifted date, so whatever a rule leaves to DTSTART must
- * be taken from DTSTART now and made explicit. */
+ * a SHIFT is a shifted date, and a rule that shares its event with other
+ * rules or exceptions is written out along with an occurrence that need
+ * not be its own, so whatever such a rule leaves to DTSTART must be taken
+ * from DTSTART now and made explicit. */
 	const echs_instant_t p = echs_instant_detach_scale(
 		echs_instant_rescale(from, rr.scale));
 
-	if (LIKELY(!rr.shift)) {
+	if (LIKELY(!rr.shift && !multi)) {
+		return rr;
+	}
+	if (multi && !echs_instant_all_day_p(p)) {
+		/* the time of day */
+		switch (rr.freq) {
+		case FREQ_YEARLY:
+		case FREQ_MONTHLY:
+		case FREQ_WEEKLY:
+		case FREQ_DAILY:
+			if (!bui31_has_bits_p(rr.H) && p.H < 24U) {
+				rr.H = ass_bui31(rr.H, p.H);
+			}
+			/*@fallthrough@*/
+		case FREQ_HOURLY:
+			if (!bui63_has_bits_p(rr.M) && p.M < 60U) {
+				rr.M = ass_bui63(rr.M, p.M);
+			}
+			/*@fallthrough@*/
+		case FREQ_MINUTELY:
+			if (!bui63_has_bits_p(rr.S) && p.S < 60U) {
+				rr.S = ass_bui63(rr.S, p.S);
+			}
+			/*@fallthrough@*/
+		default:
+			break;
+		}
+	}
+	if (UNLIKELY(!p.m || p.m > 12U || !p.d || p.d > 31U)) {
+		return rr;
+	} else if (rr.freq == FREQ_YEARLY &&
+		   bi63_has_bits_p(rr.wk) &&
+		   !bi447_has_bits_p(&rr.dow) &&
+		   !bi383_has_bits_p(&rr.doy) &&
+		   !bi31_has_bits_p(rr.dom) &&
+		   !bui31_has_bits_p(rr.mon) &&
+		   rr.scale == SCALE_GREGORIAN) {
+		/* BYWEEKNO on its own goes with DTSTART's weekday */
+		ass_bi447(&rr.dow, echs_scale_wday(rr.scale, p.y, p.m, p.d));
+		return rr;
+	} else if (rr.freq == FREQ_WEEKLY &&
+		   multi && !bi447_has_bits_p(&rr.dow)) {
+		/* DTSTART's weekday */
+		ass_bi447(&rr.dow, echs_scale_wday(rr.scale, p.y, p.m, p.d));
 		return rr;
 	} else if (bi447_has_bits_p(&rr.dow) ||
 		   bi383_has_bits_p(&rr.doy) ||
@@ -2451,14 +2514,12 @@ fix_rrul_dflts(struct rrulsp_s rr, echs_instant_t from)
 	}
 	switch (rr.freq) {
 	case FREQ_YEARLY:
-		if (!bui31_has_bits_p(rr.mon) && p.m && p.m <= 12U) {
+		if (!bui31_has_bits_p(rr.mon)) {
 			rr.mon = ass_bui31(rr.mon, p.m);
 		}
 		/*@fallthrough@*/
 	case FREQ_MONTHLY:
-		if (p.d && p.d <= 31U) {
-			rr.dom = ass_bi31(rr.dom, p.d);
-		}
+		rr.dom = ass_bi31(rr.dom, p.d);
 		break;
 	default:
 		break;
@@ -2467,7 +2528,7 @@ fix_rrul_dflts(struct rrulsp_s rr, echs_instant_t from)
 }
 
 static echs_evstrm_t
-__make_evrrul(echs_event_t e, rrulsp_t rr, size_t nr)
+__make_evrrul(echs_event_t e, rrulsp_t rr, size_t nr, bool exc, bool multi)
 {
 /* Mux NR rrules RR carried by event E into one stream. */
 	struct evrrul_s *this;
@@ -2491,16 +2552,17 @@ __make_evrrul(echs_event_t e, rrulsp_t rr, size_t nr)
 	this->seed = echs_instant_detach_tzob(e.from);
 	this->e = e = echs_event_to_utc(e);
 	this->pof = echs_instant_tzof(e.from, zon);
+	this->exc = exc;
 
 	/* bang the first one */
-	this->rrul = fix_rrul_dflts(rr[0U], this->seed);
+	this->rrul = fix_rrul_dflts(rr[0U], this->seed, multi);
 	this->seq = 0U;
 	this->ref = nr;
 	that[0U] = this;
 	/* bang the rest borrowing some fields from the first one */
 	for (size_t i = 1U; i < nr; i++) {
 		this[i] = this[0U];
-		this[i].rrul = fix_rrul_dflts(rr[i], this->seed);
+		this[i].rrul = fix_rrul_dflts(rr[i], this->seed, multi);
 		this[i].seq = i;
 		that[i] = this + i;
 	}
@@ -2692,7 +2754,7 @@ send_evrrul(int whither, echs_const_evstrm_t s)
 	 * stuff for the first stream in the sequence
 	 * also, we have to mimic evmux's next finder as we can't use it
 	 * directly because of constness */
-	if (!this->seq) {
+	if (!this->seq && !this->exc) {
 		echs_event_t e = this->e;
 
 		for (size_t i = 0U; i < this->ref; i++) {
@@ -2714,7 +2776,7 @@ send_evrrul(int whither, echs_const_evstrm_t s)
 		}
 		send_ev(whither, e, this->zon);
 	}
-	send_rrul(whither, &this->rrul, this->ncch - this->rdi);
+	send_rrul(whither, &this->rrul, this->ncch - this->rdi, this->exc);
 	return;
 }
 
@@ -2746,6 +2808,20 @@ mrulsp_icalify(int whither, const mrulsp_t *mr)
 }
 
 
+void
+echs_exdate_icalify(int whither, echs_instant_t x)
+{
+	char stmp[32U];
+	size_t ztmp;
+
+	fdbang(whither);
+	fdwrite("EXDATE:", strlenof("EXDATE:"));
+	ztmp = dt_strf_ical(stmp, sizeof(stmp), x);
+	fdwrite(stmp, ztmp);
+	fdputc('\n');
+	return;
+}
+
 void
 echs_prnt_ical_event(echs_task_t t, echs_event_t ev)
 {
@@ -2798,7 +2874,7 @@ echs_make_evstrm_rrul(echs_instant_t from, struct rrulsp_s r[static 1U], size_t 
 		.sts = 0,
 	};
 
-	return __make_evrrul(e, r, nr);
+	return __make_evrrul(e, r, nr, false, nr > 1U);
 }
 
 static echs_task_t
@@ -2893,8 +2969,9 @@ make_task(struct ical_vevent_s *ve)
 		/* get a proto exrule stream, composed of all exrules
 		 * in a nicely evmux'd stream */
 		with (echs_evstrm_t xr, x1) {
-			xr = __make_evrrul(e, ve->xrul.r, ve->xrul.nr);
-			x1 = __make_evrdat(e, ve->xdat.dt, ve->xdat.ndt);
+			xr = __make_evrrul(
+				e, ve->xrul.r, ve->xrul.nr, true, true);
+			x1 = __make_evrdat(e, ve->xdat.dt, ve->xdat.ndt, true);
 
 			if (xr != NULL && x1 != NULL) {
 				/* mux them into one */
@@ -2907,8 +2984,11 @@ make_task(struct ical_vevent_s *ve)
 		}
 
 		with (echs_evstrm_t rr, r1) {
-			rr = __make_evrrul(e, ve->rrul.r, ve->rrul.nr);
-			r1 = __make_evrdat(e, ve->rdat.dt, ve->rdat.ndt);
+			rr = __make_evrrul(
+				e, ve->rrul.r, ve->rrul.nr, false,
+				ve->rrul.nr > 1U ||
+				ve->xrul.nr || ve->xdat.ndt || ve->rdat.ndt);
+			r1 = __make_evrdat(e, ve->rdat.dt, ve->rdat.ndt, false);
 
 			if (rr != NULL && r1 != NULL) {
 				/* mux them into one */
